@@ -1,8 +1,82 @@
-/-! stub driver: answers "bad-op" to every line until the family's model is wired in -/
-partial def loop (h : IO.FS.Stream) : IO Unit := do
+import NbioVerif.DrvCommon
+import NbioVerif.Model.Alloc
+/-! allocdrv: runs the allocator model (M10) on the annotated ops of `halloc`.
+
+    C kind=<pool|aligned|std> buf=<n> free=<n>
+    M h size get=<fresh|tag> grow=<cap>
+    W h pat
+    A|S h payload get=.. grow=.. put=<tag>
+    R h size get=.. grow=.. put=<tag>
+    F h put=<tag>
+    P ...                      (concurrent supporting program: not modelled, answers "ok")
+    K lo hi                    fingerprint of the size-class table classOf lo..hi
+-/
+open Alloc
+
+def choiceOf (ws : List String) : Choice :=
+  match Drv.field ws "get" with
+  | some "fresh" => .fresh
+  | some t => .reuse t.toNat!
+  | none => .fresh
+
+def natField (ws : List String) (k : String) : Nat := ((Drv.field ws k).getD "0").toNat!
+
+def showHandle (s : St) (h : Nat) : String :=
+  match s.lookup h with
+  | none => "gone"
+  | some x =>
+    let r := s.region x.rid
+    let d := r.bytes.take x.len
+    s!"len={x.len} cap={r.cap} d={d.length}:{Drv.fnv d} full={Drv.fnv r.bytes}"
+
+def apply (g : Cfg) (s : St) (o : Op) (h : Nat) (quiet : Bool) : IO St := do
+  match step g s o with
+  | .ok s' =>
+    IO.println (if quiet then "ok" else showHandle s' h)
+    pure s'
+  | .error .bad => IO.println "rejected"; pure s
+  | .error .panic => IO.println "panic"; pure s
+
+partial def loop (h : IO.FS.Stream) (g : Cfg) (s : St) (poisoned : Bool) : IO Unit := do
   let line ← h.getLine
   if line.isEmpty then return ()
-  IO.println "bad-op"
-  loop h
+  let ws := (line.trimAscii.toString.splitOn " ").filter (· ≠ "")
+  match ws with
+  | "C" :: rest =>
+    let kind := match Drv.field rest "kind" with
+      | some "pool" => some Kind.pool | some "aligned" => some Kind.aligned | some "std" => some Kind.std | _ => none
+    match kind with
+    | none => IO.println "bad-op"; loop h g s poisoned
+    | some k =>
+      IO.println "ok"
+      let g : Cfg := match k with
+        | .pool => newPoolCfg (natField rest "buf") (natField rest "free")
+        | k => { kind := k }
+      loop h g {} false
+  | "M" :: hn :: sz :: rest =>
+    if poisoned then IO.println "rejected"; loop h g s poisoned else
+    let s ← apply g s (.malloc hn.toNat! sz.toNat! (choiceOf rest) (natField rest "grow")) hn.toNat! false
+    loop h g s poisoned
+  | "W" :: hn :: pat :: _ =>
+    match s.lookup hn.toNat! with
+    | none => IO.println "rejected"; loop h g s poisoned
+    | some x =>
+      let s ← apply g s (.write hn.toNat! 0 (Drv.pattern x.len pat.toNat!)) hn.toNat! true
+      loop h g s poisoned
+  | "A" :: hn :: pl :: rest | "S" :: hn :: pl :: rest =>
+    let s ← apply g s (.append hn.toNat! (Drv.payload pl) (choiceOf rest) (natField rest "grow") (natField rest "put")) hn.toNat! false
+    loop h g s poisoned
+  | "R" :: hn :: sz :: rest =>
+    let s ← apply g s (.realloc hn.toNat! sz.toNat! (choiceOf rest) (natField rest "grow") (natField rest "put")) hn.toNat! false
+    loop h g s poisoned
+  | "F" :: hn :: rest =>
+    let s ← apply g s (.free hn.toNat! (natField rest "put")) hn.toNat! true
+    loop h g s poisoned
+  | "K" :: lo :: hi :: _ =>
+    let tab := (List.range (hi.toNat! + 1 - lo.toNat!)).map fun i => UInt8.ofNat (classOf (lo.toNat! + i))
+    IO.println s!"cls={Drv.fnv tab}"
+    loop h g s poisoned
+  | "P" :: _ => IO.println "ok"; loop h g s true
+  | _ => IO.println "bad-op"; loop h g s poisoned
 
-def main : IO Unit := do loop (← IO.getStdin)
+def main : IO Unit := do loop (← IO.getStdin) { kind := .std } {} false
